@@ -39,6 +39,17 @@ def histories(draw):
           "accumulate_weights": draw(st.booleans()),
           "update_poolsize": False}
     rep = draw(st.sampled_from([None, "default", "logit", "zscore"]))
+    if model["name"] == "gauss_uniform" and draw(st.integers(0, 3)) == 0:
+        # prior declared uniform for every parameter: candidates are
+        # rejected on the prior evaluated in the reparameterised space
+        rep = draw(st.sampled_from([
+            {"default": {"parameters": ["x.*"], "prior": "uniform"}},
+            {"default": {"parameters": ["x.*"], "prior": "uniform",
+                         "rescale_bounds": [0, 1]}},
+            {"rescaletobounds": {"parameters": ["x.*"], "prior": "uniform",
+                                 "rescale_bounds": [-2, 3],
+                                 "update_bounds": False}},
+        ]))
     if rep is not None:
         kw["reparameterisations"] = rep
     if draw(st.integers(0, 3)) == 0:
